@@ -538,7 +538,8 @@ Lemma ptd_head fuel sch frags g snake cn tn ss extra s cs s' :
   exists f fields mix unp' rest, fuel = S f /\
     resolve f sch frags false ss tn (st_unp s) = Some (fields, mix, unp') /\
     cs = {| c_name := cn; c_type := tn; c_bases := class_bases g mix extra; c_frags := sort_uniq mix;
-            c_direct := direct_spreads ss; c_bfrags := sort_uniq (reduced g mix) |} :: rest.
+            c_direct := direct_spreads ss; c_bfrags := sort_uniq (reduced g mix);
+            c_direct_at := direct_at sch tn ss |} :: rest.
 Proof.
   intros H Hm. destruct fuel as [|f]; [discriminate|]. simpl in H. rewrite Hm in H.
   destruct (resolve f sch frags false ss tn (st_unp s)) as [[[fields mix] unp']|] eqn:E; [|discriminate].
@@ -1007,4 +1008,46 @@ Proof.
   unfold find_frag in Hf. apply find_some in Hf. destruct Hf as [Hin He]. apply String.eqb_eq in He.
   unfold no_fragment_cycles in Hn. rewrite forallb_forall in Hn. specialize (Hn fd Hin).
   apply negb_true_iff in Hn. apply mem_false in Hn. apply Hn. rewrite He. apply frag_bases_spec. exact Hc.
+Qed.
+
+
+(* the premise of the property, through applicable unconditional inline fragments: a fragment spread (directly)
+   in a selection set that is EVALUATED for rt - the class's own selection set, or the selection set of an
+   unconditional `... on rt` whose condition applies, nested to any depth - and defined on exactly rt is a base *)
+Lemma resolve_direct_at_mixin sch frags fn fd : find_frag fn frags = Some fd ->
+  forall fuel ss root unp fields mix unp',
+  resolve fuel sch frags false ss root unp = Some (fields, mix, unp') ->
+  forall rt, In (fn, rt) (direct_at sch root ss) -> unpack_fragment sch fd (Some rt) = false -> In fn mix.
+Proof.
+  intros Hf. induction fuel as [|f IH]; intros ss root unp fields mix unp' H rt Hin Hu; [discriminate|].
+  simpl in H. destruct ss as [|s rest]; [destruct Hin|].
+  match type of H with match ?r1 with _ => _ end = _ => destruct r1 as [[[f1 m1] u1]|] eqn:E1; [|discriminate] end.
+  destruct (resolve f sch frags false rest root u1) as [[[f2 m2] u2]|] eqn:E2; [|discriminate].
+  inversion H; subst. apply in_or_app. unfold direct_at in Hin. simpl in Hin. apply in_app_or in Hin.
+  destruct Hin as [Hin|Hin]; [|right; eapply IH; eassumption]. left.
+  destruct s as [al nm mx sub|sn c|tc c sub]; simpl in Hin; [destruct Hin| |].
+  - destruct c; [destruct Hin|]. destruct Hin as [Hin|[]]. inversion Hin; subst.
+    rewrite Hf in E1. rewrite Hu in E1. simpl in E1. inversion E1; subst. left. reflexivity.
+  - destruct c; [destruct Hin|]. destruct (inline_root sch tc root) as [rt'|]; [|destruct Hin].
+    simpl in E1. eapply IH; [exact E1 | exact Hin | exact Hu].
+Qed.
+
+Theorem mixin_instance_nested_lemma fuel sch frags g snake cn tn ss extra s cs s' :
+  acyclic_g g ->
+  ptd fuel sch frags g snake cn tn ss extra s = Some (cs, s') -> mem cn (st_public s) = false ->
+  exists c rest, cs = c :: rest /\ c_name c = cn /\ c_direct_at c = direct_at sch tn ss /\
+    forall fn rt fd, In (fn, rt) (c_direct_at c) -> find_frag fn frags = Some fd ->
+      is_union sch (fr_on fd) = false -> fr_on fd = rt -> existsb is_inline (fr_sel fd) = false ->
+      In fn (c_frags c) /\
+      exists b, In b (c_bfrags c) /\ In (pascal_s b) (c_bases c) /\ reachable (rgraph g) b fn.
+Proof.
+  intros Hac H Hm.
+  destruct (ptd_head _ _ _ _ _ _ _ _ _ _ _ _ H Hm) as [f [fields [mix [unp' [rest [-> [E ->]]]]]]].
+  eexists; eexists. split; [reflexivity|]. simpl. split; [reflexivity|]. split; [reflexivity|].
+  intros fn rt fd Hin Hf H1 H2 H3.
+  assert (Hmix : In fn mix).
+  { eapply resolve_direct_at_mixin; [exact Hf | exact E | exact Hin | apply unpack_false; assumption]. }
+  split; [apply sort_uniq_In; exact Hmix|].
+  destruct (covered_reduced g Hac mix fn Hmix) as [b [Hb Hr]]. exists b.
+  split; [apply sort_uniq_In; exact Hb|]. split; [apply class_bases_mixin; exact Hb | exact Hr].
 Qed.
